@@ -104,6 +104,8 @@ funcs: spifhash_jenkins
 # define REF(p, K, s)    ref_fnv1a((p), (K), (s))
 #endif
 
+#define VERIF_LEMMA(e, txt) do { __CPROVER_assert((e), txt); __CPROVER_assume(e); } while (0)
+
 spif_uint32_t w_seed;
 
 void harness(void)
@@ -124,6 +126,18 @@ void harness(void)
             for (i = 0; i < BYTES(K); i++) {
                 buf[A + i] = kb[i];
             }
+#ifdef U_WORD_LEMMA
+            /* cut lemma (proved here, then used): on this host a 32-bit load from an aligned key
+             * position is the little-endian byte sum of lookup2's hash().  assert-then-assume of the
+             * SAME expression is the cut rule, not an assumption. */
+            if ((A & 3) == 0) {
+                for (i = 0; i + 4 <= BYTES(K); i += 4) {
+                    VERIF_LEMMA(*(spif_uint32_t *) (buf + A + i) ==
+                                (kb[i] + ((spif_uint32_t) kb[i + 1] << 8) + ((spif_uint32_t) kb[i + 2] << 16) + ((spif_uint32_t) kb[i + 3] << 24)),
+                                "lemma: aligned 32-bit load == little-endian byte sum");
+                }
+            }
+#endif
             __CPROVER_assert(HASH(buf + A, K, seed) == expect, "hash value equals the published definition");
 #if defined(ALSO) && !defined(NO_ALSO)
             __CPROVER_assert(ALSO(buf + A, K, seed), "byte-wise and word-wise Jenkins variants agree");
